@@ -8,8 +8,13 @@ from .spec import Sym
 
 
 class LoopSpec:
-    def __init__(self, header, inv, shapes=None, ordinal=0, elem=None, body_post=None):
+    """roles = {'carried': [...], 'local': [...]}: the names the invariant / shapes use for (a) the variables initialised before the loop and
+    re-assigned in it, in order of initialisation, (b) the variables first assigned inside the loop, in order of first assignment.  When the
+    source spells them differently (a rename) and the counts agree, the contract's names are aliases of the actual ones.  pos = index of
+    the loop among the function's own `for` statements (fallback when the header text no longer matches)."""
+    def __init__(self, header, inv, shapes=None, ordinal=0, elem=None, body_post=None, roles=None, pos=None):
         self.header, self.inv, self.shapes, self.ordinal, self.elem, self.body_post = header, inv, shapes or {}, ordinal, elem, body_post
+        self.roles, self.pos = roles, pos
 
 
 class Contract:
@@ -31,9 +36,12 @@ class Contract:
         self.effects_only_if = effects_only_if   # fn(S,a)->Bool: every path of THIS function that performs an effect must satisfy it
         self.short = qual.split(':')[1]
 
-    def loop(self, hdr, ordn):
+    def loop(self, hdr, ordn, pos=None):
         for l in self.loops:
             if l.header == hdr and l.ordinal == ordn: return l
+        if pos is not None:
+            for l in self.loops:
+                if l.pos == pos: return l
         return None
 
     def result_shapes(self, S, a):
@@ -125,6 +133,7 @@ def verify_function(prog, reg, c, labels=None, opts=None, timeout_ms=20000):
     wr = prog.wrapped_by(c.qual)
     if wr:
         rep.error = f'function is wrapped by decorator(s) {wr}: callers of the name reach the wrapper, so a contract proved on the body does not transfer'; return rep
+    sx.set_role_aliases(fn, c.loops)
     argnames = [a.arg for a in fn.args.args]
     # a contract on a mechanically extracted block names the block's outer locals by ROLE (order of first use), not by spelling
     roles = (getattr(c, 'opts', None) or {}).get('local_roles')
